@@ -1,4 +1,4 @@
-"""Engine shim needed by the C01 harnesses (candidate for vf/sx_stubs.py).
+"""Engine shim: exact bit operations and range-checked bytes() (written for the C01 harnesses, installed for all by vf/sx.py).
 
 crosshair-tool 0.0.110 *realises* both operands of `a | b` and the symbolic operand of
 `a & mask` unless the mask is 2^k-1.  bacpypes assembles and tests octets exactly that way
